@@ -102,3 +102,117 @@ Proof.
     rewrite firstn_all2 by (rewrite map_length; lia).
     rewrite skipn_app, map_length, LA, Nat.sub_diag. rewrite skipn_all2 by (rewrite map_length; lia). reflexivity.
 Qed.
+
+(* ---------------- growth round: Remove and the initial table ---------------- *)
+Lemma skipn_skipn_add {A} a b (l : list A) : skipn a (skipn b l) = skipn (a + b) l.
+Proof.
+  revert l. induction b; intros l; [rewrite Nat.add_0_r; reflexivity|].
+  destruct l; [rewrite !skipn_nil; reflexivity|]. rewrite Nat.add_succ_r. cbn [skipn]. apply IHb.
+Qed.
+
+Lemma skipn_nth_cons {A} a (l : list A) d : a < length l -> skipn a l = nth a l d :: skipn (S a) l.
+Proof.
+  revert l. induction a; intros [|x l] H; simpl in H; try lia; [reflexivity|]. cbn [skipn nth]. apply IHa. lia.
+Qed.
+
+Lemma idx_split4 (l : list nat) a c : a < c -> c <= length l ->
+  l = firstn a l ++ nth a l 0 :: firstn (c - a - 1) (skipn (S a) l) ++ skipn c l.
+Proof.
+  intros H1 H2. rewrite <- (firstn_skipn a l) at 1. f_equal.
+  rewrite (skipn_nth_cons a l 0) by lia. f_equal.
+  rewrite <- (firstn_skipn (c - a - 1) (skipn (S a) l)) at 1. f_equal.
+  rewrite skipn_skipn_add. f_equal. lia.
+Qed.
+
+Theorem remove_idx_refines n index :
+  winv n -> index < icount n ->
+  let n' := remove_idx n index in
+  winv n' /\ logical n' = remove_at index (logical n) /\ slots n' = slots n.
+Proof.
+  intros (L & ND & F & C) Hi. cbv zeta.
+  set (c := icount n) in *. set (real := nth index (idx n) 0).
+  pose proof (idx_split4 (idx n) index c Hi C) as E. fold real in E.
+  set (A := firstn index (idx n)) in *. set (B := firstn (c - index - 1) (skipn (S index) (idx n))) in *. set (T := skipn c (idx n)) in *.
+  assert (LA : length A = index) by (unfold A; apply firstn_length_le; lia).
+  assert (LB : length B = c - index - 1) by (unfold B; apply firstn_length_le; rewrite skipn_length; lia).
+  assert (Ec : firstn c (idx n) = A ++ real :: B).
+  { rewrite E. change (A ++ real :: B ++ T) with (A ++ (real :: B) ++ T). rewrite app_assoc, firstn_app.
+    replace (c - length (A ++ real :: B)) with 0 by (rewrite app_length; cbn [length]; lia).
+    rewrite firstn_O, app_nil_r. apply firstn_all2. rewrite app_length. cbn [length]. lia. }
+  split; [|split; [|reflexivity]].
+  - unfold winv, remove_idx. cbn [slots idx icount]. fold c real A B T.
+    assert (Ep : Permutation.Permutation (A ++ B ++ real :: T) (idx n)).
+    { rewrite E. apply Permutation.Permutation_app_head. apply Permutation.Permutation_sym, Permutation.Permutation_middle. }
+    split; [rewrite (Permutation.Permutation_length Ep); exact L|].
+    split; [eapply Permutation.Permutation_NoDup; [apply Permutation.Permutation_sym; exact Ep | exact ND]|].
+    split; [eapply Permutation.Permutation_Forall; [apply Permutation.Permutation_sym; exact Ep | exact F]|].
+    rewrite (Permutation.Permutation_length Ep). lia.
+  - unfold logical, remove_idx. cbn [slots idx icount]. fold c real A B T.
+    assert (Ef : firstn (c - 1) (A ++ B ++ real :: T) = A ++ B).
+    { rewrite app_assoc, firstn_app. replace (c - 1 - length (A ++ B)) with 0 by (rewrite app_length; lia).
+      rewrite firstn_O, app_nil_r. apply firstn_all2. rewrite app_length. lia. }
+    rewrite Ef, Ec, !map_app. cbn [map]. unfold remove_at.
+    rewrite firstn_app, map_length, LA, Nat.sub_diag. cbn [firstn]. rewrite app_nil_r.
+    rewrite firstn_all2 by (rewrite map_length; lia).
+    rewrite skipn_app, map_length, LA. rewrite skipn_all2 by (rewrite map_length; lia).
+    replace (S index - index) with 1 by lia. reflexivity.
+Qed.
+
+(* the node constructor: pvInitIndexes writes the identity table (see NodeOps.init_indexes_identity for the real loop) *)
+Definition init_inode (cap : nat) (s : list Z) : inode := {| slots := s; idx := seq 0 cap; icount := 0 |}.
+
+Theorem init_inode_winv cap s : length s = cap -> winv (init_inode cap s) /\ logical (init_inode cap s) = [].
+Proof.
+  intros H. split; [|reflexivity]. unfold winv, init_inode. cbn [slots idx icount]. rewrite seq_length.
+  split; [auto|]. split; [apply seq_NoDup|]. split; [|lia].
+  apply Forall_forall. intros i Hi. apply in_seq in Hi. lia.
+Qed.
+
+(* all node operations together: any sequence of AcceptBackItem / Remove on an indexed node keeps the table a permutation and the
+   logical sequence equal to the same sequence of insert_at / remove_at on a plain list - the item list of the tree-level model *)
+Inductive nop := NAccept (index : nat) (x : Z) | NRemove (index : nat).
+
+Definition nstep_i (n : inode) (o : nop) : option inode :=
+  match o with
+  | NAccept i x => if andb (icount n <? length (idx n)) (i <=? icount n) then Some (accept_back (write_back n x) i) else None
+  | NRemove i => if i <? icount n then Some (remove_idx n i) else None
+  end.
+Definition nstep_l (l : list Z) (cap : nat) (o : nop) : option (list Z) :=
+  match o with
+  | NAccept i x => if andb (length l <? cap) (i <=? length l) then Some (insert_at i x l) else None
+  | NRemove i => if i <? length l then Some (remove_at i l) else None
+  end.
+
+Lemma logical_length n : winv n -> length (logical n) = icount n.
+Proof. intros (L & _ & _ & C). unfold logical. rewrite map_length, firstn_length_le; lia. Qed.
+
+Theorem node_history_refines ops : forall n, winv n ->
+  match fold_left (fun s o => match s with Some m => nstep_i m o | None => None end) ops (Some n),
+        fold_left (fun s o => match s with Some l => nstep_l l (length (idx n)) o | None => None end) ops (Some (logical n)) with
+  | Some n', Some l' => winv n' /\ logical n' = l' /\ length (idx n') = length (idx n)
+  | None, None => True
+  | _, _ => False
+  end.
+Proof.
+  induction ops as [|o ops IH]; intros n W; cbn [fold_left].
+  - auto.
+  - pose proof (logical_length n W) as LL.
+    destruct o as [i x|i]; cbn [nstep_i nstep_l]; rewrite LL.
+    + destruct (andb (icount n <? length (idx n)) (i <=? icount n)) eqn:E.
+      * apply andb_prop in E. destruct E as [E1 E2]. apply Nat.ltb_lt in E1. apply Nat.leb_le in E2.
+        destruct (accept_back_refines n x i W E2 E1) as (W' & L').
+        specialize (IH _ W'). rewrite L' in IH.
+        assert (EL : length (idx (accept_back (write_back n x) i)) = length (idx n)).
+        { destruct W' as (A & _). pose proof W as (B & _ & F & _). rewrite A. unfold accept_back, write_back. cbn [slots].
+          rewrite replace_at_length; [symmetry; exact B|].
+          rewrite Forall_forall in F. apply F. apply nth_In. lia. }
+        rewrite EL in IH. exact IH.
+      * clear IH. induction ops; cbn [fold_left]; auto.
+    + destruct (i <? icount n) eqn:E.
+      * apply Nat.ltb_lt in E. destruct (remove_idx_refines n i W E) as (W' & L' & S').
+        specialize (IH _ W'). rewrite L' in IH.
+        assert (EL : length (idx (remove_idx n i)) = length (idx n)).
+        { destruct W' as (A & _). pose proof W as (B & _). rewrite A, S'. symmetry; exact B. }
+        rewrite EL in IH. exact IH.
+      * clear IH. induction ops; cbn [fold_left]; auto.
+Qed.
